@@ -654,9 +654,16 @@ class HookInterp(Interp):
             it = force(ctx, self.eval(ctx, g.iter, env, fi))
             if isinstance(it, VJson):
                 kind = self.node_class(ctx, it)
+                if kind in ("obj", "str"):
+                    # iterating a dict yields its keys, a str its characters: an empty one gives [], otherwise the elements
+                    # are strings the hook does not expect (structuring them raises downstream)
+                    S0 = self.site
+                    nonempty = S0.sym(f"nonempty {it.path}", "Bool") if kind == "obj" else Not(Eq(S0.s(it.path), '""'))
+                    if ctx.branch(nonempty):
+                        raise PyRaise("TypeError", [], f"comprehension over a non-empty JSON {kind}: elements are not the values the hook expects")
+                    return VList([])
                 if kind != "arr":
-                    # iterating a dict yields its keys, a str its characters, a scalar raises
-                    raise PyRaise("TypeError", [], f"comprehension over a JSON {kind}: elements are not the values the hook expects")
+                    raise PyRaise("TypeError", [], f"comprehension over a JSON {kind}")
                 S = self.site
                 ln = S.length(it.path)
                 k = ctx.choose([Eq(ln, "0")] + [Eq(ln, smt.sint(i)) for i in range(1, NELEMS + 1)] + [smt.Gt(ln, smt.sint(NELEMS))])
